@@ -67,7 +67,7 @@ Relevant(clause, op, names, kinds) ==
                     \/ clause = "pots"
                     \/ clause \in StateClauses /\ "PUSH" \in kinds /\ names \cap (PotF \cup ChipF \cup {"log"}) # {}
     [] P = "C03" -> \/ clause \in RuleClauses /\ names \cap RulesOf("C03") # {}
-                    \/ clause \in {"probe", "outcome", "refused-but-changed"} /\ op \in BetOps
+                    \/ clause \in {"probe", "verifier", "outcome", "refused-but-changed"} /\ op \in BetOps
                     \/ clause \in StateClauses /\ names \cap BetF # {}
                     \/ clause \in StateClauses /\ op \in BetOps /\ names \cap (ChipF \cup {"alive", "log", "allin"}) # {}
     [] P = "C06" -> \/ clause \in RuleClauses /\ names \cap RulesOf("C06") # {}
@@ -75,20 +75,20 @@ Relevant(clause, op, names, kinds) ==
     [] P = "C07" -> \/ clause \in RuleClauses /\ names \cap RulesOf("C07") # {}
                     \/ clause \in {"outcome-other", "create-raised", "fault"}
                     \/ clause \in StateClauses /\ names \cap PhaseF # {}
-    [] P = "C08" -> clause \in {"probe", "probe-raised", "outcome", "outcome-other", "refused-but-changed"}
+    [] P = "C08" -> clause \in {"probe", "probe-raised", "verifier", "query-changed-state", "outcome", "outcome-other", "refused-but-changed"}
     [] P = "C10" -> \/ clause \in RuleClauses /\ names \cap RulesOf("C10") # {}
-                    \/ clause \in {"probe", "outcome", "refused-but-changed"} /\ op \in DealOps
+                    \/ clause \in {"probe", "verifier", "outcome", "refused-but-changed"} /\ op \in DealOps
                     \/ clause \in StateClauses /\ names \cap (DealF \cup {"hole", "up", "board"}) # {}
                     \/ clause \in StateClauses /\ kinds \cap {"CB", "HD", "BD", "SD"} # {} /\ "log" \in names
     [] P = "C12" -> \/ clause \in RuleClauses /\ names \cap RulesOf("C12") # {}
-                    \/ clause \in {"probe", "outcome", "refused-but-changed"} /\ op \in ShowOps
+                    \/ clause \in {"probe", "verifier", "outcome", "refused-but-changed"} /\ op \in ShowOps
                     \/ clause \in StateClauses /\ kinds \cap {"SM", "HK"} # {}
                          /\ names \cap ({"log", "alive", "killPend", "showq", "hole", "up", "muck"} \cup ChipF) # {}
     [] P = "C13" -> \/ clause \in RuleClauses /\ names \cap RulesOf("C13") # {}
                     \/ clause \in StateClauses /\ names \cap {"opener", "actors"} # {}
                     \/ clause \in StateClauses /\ "BI" \in kinds /\ "log" \in names
     [] P = "C14" -> \/ clause \in RuleClauses /\ names \cap RulesOf("C14") # {}
-                    \/ clause \in {"probe", "outcome", "refused-but-changed"} /\ op = "select_runout_count"
+                    \/ clause \in {"probe", "verifier", "outcome", "refused-but-changed"} /\ op = "select_runout_count"
                     \/ clause \in StateClauses /\ names \cap (RunF \cup {"board", "boardPend"}) # {}
     [] OTHER -> TRUE
 
@@ -109,12 +109,16 @@ MicroOK(t, k, op, C, ev) ==
   \A j \in DOMAIN ev.micro :
      LET bad == BrokenMicroRules(C, ev.micro[j]) IN bad = {} \/ Report(t, k, "microrule", op, bad, {ev.micro[j].op.k}, <<j, ev.micro[j]>>)
 
+\* a query answers what the model's guard says and never raises; the verifier raises exactly the modelled refusal; and
+\* asking changes nothing (digest over every field of the State before and after the whole batch of questions)
 ProbesOK(t, k, C, St, ev) ==
-  \A j \in DOMAIN ev.probes :
-     LET pr == ev.probes[j] IN
-     IF pr.x # "" THEN Report(t, k, "probe-raised", pr.op, {}, {}, <<pr.a, pr.x>>)
-     ELSE LET g == Guard(C, St, pr.op, pr.a) IN
-          g = pr.r \/ Report(t, k, "probe", pr.op, {}, {}, <<pr.a, "model", g, "code", pr.r>>)
+  /\ ev.psame \/ Report(t, k, "query-changed-state", "none", {}, {}, <<>>)
+  /\ \A j \in DOMAIN ev.probes :
+       LET pr == ev.probes[j]
+           mo == Outcome(C, St, pr.op, pr.a)
+       IN /\ IF pr.x # "" THEN Report(t, k, "probe-raised", pr.op, {}, {}, <<pr.a, pr.x>>)
+             ELSE (mo = "ok") = pr.r \/ Report(t, k, "probe", pr.op, {}, {}, <<pr.a, "model", mo, "code", pr.r>>)
+          /\ pr.v = (IF mo = "ok" THEN "" ELSE mo) \/ Report(t, k, "verifier", pr.op, {}, {}, <<pr.a, "model", mo, "code", pr.v>>)
 
 IsOther(out) == out \notin {"ok", "ValueError", "UserWarning"}
 
